@@ -62,6 +62,16 @@ var (
 )
 
 func intVal(t *Term) *Val  { return &Val{T: tInt, L: []*Term{t}} }
+
+func intValSort(t *Term) *Val {
+	switch t.Sort {
+	case SInt:
+		return intVal(t)
+	case SBool:
+		return boolVal(t)
+	}
+	return &Val{L: []*Term{t}}
+}
 func boolVal(t *Term) *Val { return &Val{T: tBool, L: []*Term{t}} }
 
 func (e *SpecEnv) evalBool(x *SExpr) *Term {
@@ -103,7 +113,7 @@ func (e *SpecEnv) resolveType(t *SType) types.Type {
 	}
 	if t.Pkg == "" {
 		switch t.Name {
-		case "bv64", "bv8", "bv32", "bv1":
+		case "bv64", "bv8", "bv32", "bv1", "intarray":
 			return pseudoType(t.Name)
 		}
 		if r, ok := e.te[t.Name]; ok {
@@ -678,6 +688,10 @@ func fieldIndex(st *types.Struct, name string) int {
 
 func (e *SpecEnv) index(x *SExpr) *Val {
 	v := e.eval(x.Args[0])
+	if len(v.L) == 1 && v.L[0].Sort.IsArray() {
+		i := e.eval(x.Args[1])
+		return intValSort(Select(v.L[0], i.L[0]))
+	}
 	if v.T == nil {
 		if len(v.L) == 1 && v.L[0].Sort.IsArray() {
 			i := e.eval(x.Args[1])
@@ -779,6 +793,40 @@ func (e *SpecEnv) call(x *SExpr) *Val {
 				}
 				_, ok := e.fr.snaps[args[0].Name]
 				return boolVal(BoolLit(ok))
+			case "arr": // arr(p): contents of the backing array of an integer slice, as an array value
+				v := e.eval(args[0])
+				sl, ok := types.Unalias(e.te.apply(v.T)).Underlying().(*types.Slice)
+				if !ok || len(v.L) != 4 {
+					e.fail(x, "arr() of a non-slice")
+				}
+				name := "[]" + typeName(e.te.apply(sl.Elem()))
+				return &Val{T: pseudoType("intarray"), L: []*Term{Select(e.st.comp(name, ArrSort(SInt, ArrSort(SInt, SInt))), v.L[0])}}
+			case "off": // off(p): absolute index of p[0] in its backing array
+				v := e.eval(args[0])
+				if len(v.L) != 4 {
+					e.fail(x, "off() of a non-slice")
+				}
+				return intVal(v.L[1])
+			case "stringOf": // stringOf(p): string(p) for a byte slice p
+				v := e.eval(args[0])
+				sl, ok := types.Unalias(e.te.apply(v.T)).Underlying().(*types.Slice)
+				if !ok || len(v.L) != 4 {
+					e.fail(x, "stringOf() of a non-slice")
+				}
+				el := typeName(sl.Elem())
+				comp := e.st.comp("[]"+el, ArrSort(SInt, ArrSort(SInt, SInt)))
+				return &Val{T: tStr, L: []*Term{UF("str_of_"+el+"s", SStr, Select(comp, v.L[0]), v.L[1], v.L[2])}}
+			case "subslice": // subslice(p, lo, hi): the slice value p[lo:hi]
+				v := e.eval(args[0])
+				lo := e.evalInt(args[1])
+				hi := e.evalInt(args[2])
+				if len(v.L) != 4 {
+					e.fail(x, "subslice() of a non-slice")
+				}
+				return &Val{T: v.T, L: []*Term{v.L[0], Add(v.L[1], lo), Sub(hi, lo), Sub(v.L[3], lo)}}
+			case "runeLen": // runeLen(s): number of code points of a string (= len([]rune(s)))
+				v := e.eval(args[0])
+				return intVal(UF("len_int32s_of_str", SInt, v.L[0]))
 			case "tagged": // tagged(f, name): f is a closure whose contract carries "tag name"
 				if len(args) != 2 || args[1].Kind != "ident" {
 					e.fail(x, "tagged(value, tagname)")
